@@ -1178,3 +1178,343 @@ def mvrs_to_data_polling_unbounded(S, I, variant):
     mv = mvrs.at(i)
     S.eq("d[i] = assort(mvr_i)", darr.at(i), value_of(mv))
     S.holds("0 <= d[i] <= u", band(xcmp(">=", darr.at(i), ZERO), xcmp("<=", darr.at(i), u)))
+
+
+# ------------------------------------------------------------------ C09 / C06: set_p_values, summarize_status with an UNBOUNDED number of assertions
+
+class RecordLoopSummary:
+    """`for key, rec in D.items(): body` over a SymObjDict D (symbolic number of entries) with one loop-carried accumulator.
+    The REAL body is run at an arbitrary entry j under the invariant  accumulator = acc_at(D, j); obligations: the accumulator
+    after the body equals acc_at(D, j+1), plus the caller's checks of the body's effect on entry j's record and on the dict-valued
+    attributes of the owner object (one new item per entry).  After the loop: accumulator = acc_at(D, n); entry j's record and the
+    owner's dict items are what the body produces at j (evaluated on demand at the index a reader asks for)."""
+
+    def __init__(self, S, acc_at, check=None):
+        self.S, self.acc_at, self.check = S, acc_at, check
+        self.done = []
+
+    def run_for(self, I, st, env, in_class):
+        import ast
+        from pyvc.interp import Env
+        S, c = self.S, ctx()
+        view = I.eval(st.iter, env)
+        if not isinstance(view, SymDictView) or view.kind != "items" or not (isinstance(st.target, ast.Tuple) and len(st.target.elts) == 2
+                                                                              and all(isinstance(t, ast.Name) for t in st.target.elts)):
+            raise NotApplicable("loop is not `for key, record in <symbolic-size dict>.items()`")
+        d = view.d
+        kname, rname = st.target.elts[0].id, st.target.elts[1].id
+        assigned = set()
+        for n in ast.walk(ast.Module(body=st.body, type_ignores=[])):
+            if isinstance(n, (ast.Assign, ast.AugAssign)):
+                for t in (n.targets if isinstance(n, ast.Assign) else [n.target]):
+                    for nm in ast.walk(t):
+                        if isinstance(nm, ast.Name) and isinstance(nm.ctx, ast.Store):
+                            assigned.add(nm.id)
+        carried = sorted(v for v in assigned if v in env.vars and v not in (kname, rname))
+        if len(carried) > 1:
+            raise NotApplicable("more than one loop-carried variable: " + ", ".join(carried))
+        acc = carried[0] if carried else None
+        # the object whose `.assertions` (or other attribute) is iterated: its dict-valued attributes may receive one item per entry
+        owner = None
+        if isinstance(st.iter, ast.Call) and isinstance(st.iter.func, ast.Attribute) and isinstance(st.iter.func.value, ast.Attribute):
+            owner = I.eval(st.iter.func.value.value, env)
+        n = d.length
+        if acc is not None:
+            S.eq(f"[{self.tag(owner)}] accumulator on entry = its initial value", xr(I.norm_scalar(env.vars[acc])), xr(self.acc_at(d, 0)))
+        memo = {}
+        base_rec = d._rec_of          # the records as they are when this loop starts (later summaries wrap them again)
+        before_dicts = {a: dict(v) for a, v in owner.attrs.items() if isinstance(v, dict)} if isinstance(owner, Obj) else {}
+        # the body is also run on demand after the loop (and after later iterations of enclosing loops): it must see the bindings
+        # of THIS moment (e.g. the enclosing loop's `con`), so the local environment is frozen here
+        frozen = Env(dict(env.vars), env.parent, env.module)
+        frozen.fn_qual = getattr(env, "fn_qual", None)
+        frozen.class_ns = getattr(env, "class_ns", False)
+
+        def effect_at(j):
+            j = zi(idx_term(j))
+            k = tid(j)
+            if k in memo:
+                return memo[k]
+            rec = base_rec(j)
+            # scratch copies of the owner's dict attributes as they were when the loop started: the body's new items are read off
+            # them, and whatever the attributes hold now (possibly the summarised tables) is put back afterwards
+            current = {a: owner.attrs[a] for a in before_dicts} if isinstance(owner, Obj) else {}
+            scratch = {a: dict(v) for a, v in before_dicts.items()}
+            for a, v in scratch.items():
+                owner.attrs[a] = v
+            ev = {kname: d.key_at(j), rname: rec}
+            if acc is not None:
+                ev[acc] = self.acc_at(d, j)
+            env2 = Env(ev, frozen, env.module)
+            env2.fn_qual = getattr(env, "fn_qual", None)
+            try:
+                I.exec_block(st.body, env2, in_class)
+                entries = {}
+                for a, v in scratch.items():
+                    if owner.attrs.get(a) is not v:
+                        raise NotApplicable("the body rebinds a dict attribute of the owner object")
+                    entries[a] = {kk: vv for kk, vv in v.items() if kk not in before_dicts[a]}
+            finally:
+                for a, v in current.items():
+                    owner.attrs[a] = v
+            out = {"rec": rec, "entries": entries, "acc": env2.vars.get(acc) if acc is not None else None}
+            memo[k] = out
+            return out
+
+        j0 = z3.Int(c.fresh("entry"))
+        with c.scope():
+            c.assume(z3.And(j0 >= 0, j0 < zi(n)))
+            e0 = effect_at(j0)
+            if acc is not None:
+                S.eq(f"[{self.tag(owner)}] accumulator after the body at entry j = its invariant at j+1", xr(I.norm_scalar(e0["acc"])), xr(self.acc_at(d, j0 + 1)))
+            if self.check is not None:
+                self.check(S, I, owner, d, j0, e0)
+        memo.pop(tid(j0), None)
+        # state after the loop
+        if acc is not None:
+            env.vars[acc] = self.acc_at(d, n)
+        d.set_records(lambda j: effect_at(j)["rec"])
+        if isinstance(owner, Obj):
+            for a, v in before_dicts.items():
+                if e0["entries"].get(a):
+                    owner.attrs[a] = LazyEntries(d, (lambda a: (lambda j: effect_at(j)["entries"][a][d.key_at(j)]))(a), before=dict(v))
+        self.done.append((owner, d))
+
+    @staticmethod
+    def tag(owner):
+        return owner.attrs.get("id", "?") if isinstance(owner, Obj) else "?"
+
+
+def assertion_collection(S, I, con, cid, rl):
+    """a contest's assertions as a dict of symbolic size: assertion j has data D_j and bound U_j (its mvrs_to_data, abstracted),
+    a test that returns (P_j, H_j) with P_j in [0,1] (the C11 interface) and records the bound it held when called, an old
+    p-value and an old proved flag"""
+    c = ctx()
+    Asn = I.get(MOD, "Assertion")
+    NM = I.get("shangrla.core.NonnegMean", "NonnegMean")
+    NA = S.integer(f"n_assertions_{cid}", lo=0)
+    P = z3.Function(f"p_{cid}", z3.IntSort(), z3.RealSort())
+    U = z3.Function(f"u_{cid}", z3.IntSort(), z3.RealSort())
+    STALE = z3.Function(f"stale_u_{cid}", z3.IntSort(), z3.RealSort())
+    OLDPROVED = z3.Function(f"old_proved_{cid}", z3.IntSort(), z3.BoolSort())
+    tokens = {}
+
+    def token(kind, j):
+        k = (kind, tid(zi(j)))
+        if k not in tokens:
+            tokens[k] = FStr([kind, cid, SInt(zi(j))])
+        return tokens[k]
+
+    log = []
+
+    def p_of(j):
+        v = XR(P(zi(j)), npk=True)
+        c.assume(z3.And(P(zi(j)) >= 0, P(zi(j)) <= 1), definitional=True)
+        return v
+
+    def make(j):
+        j = zi(j)
+        testobj = Obj(NM, {"u": XR(STALE(j))})
+
+        def test(I_, a, k, j=j, testobj=testobj):
+            log.append((j, a[0] if a else k.get("x"), testobj.attrs["u"]))
+            return (p_of(j), token("history", j))
+
+        testobj.attrs["test"] = Builtin("abstract_test", test)
+        asn = Obj(Asn, {"contest": con, "test": testobj, "p_value": XR.finvar(c.fresh("old_p"), npk=True), "p_history": [],
+                        "proved": mkbool(OLDPROVED(j)), "winner": "A", "loser": "B", "margin": XR.const(Fraction(1, 10))})
+        asn.attrs["mvrs_to_data"] = Builtin("abstract_mvrs_to_data", lambda I_, a, k, j=j: (token("data", j), XR(U(j))))
+        return asn
+
+    d = SymObjDict(iterm(NA), lambda j: token("assertion", j), make)
+    spec = {"NA": NA, "P": P, "U": U, "OLDPROVED": OLDPROVED, "token": token, "log": log, "p_of": p_of, "rl": rl,
+            "RM": SymArr(iterm(NA), lambda j: p_of(j), "xr").fold("max0")}
+    return d, spec
+
+
+def running_max_lemmas(S, spec, tagname):
+    """RM(n) = max(0, P_0 .. P_{n-1}) as the running maximum: every P_j <= RM(n) (induction), hence RM(n) <= r iff every P_j <= r
+    for r >= 0; and RM(n) is 0 or one of the P_j (witness by induction)."""
+    c = ctx()
+    NA, RM, p_of = spec["NA"], spec["RM"], spec["p_of"]
+    j = z3.Int(c.fresh("jmax"))
+    c.assume(z3.And(j >= 0, j < zi(iterm(NA))))
+    ub = S.induction(f"[{tagname}] P_j <= running maximum from j+1 on",
+                     lambda dd: bimp(icmp("<=", iadd(iadd(j, 1), dd), NA), xcmp("<=", p_of(j), RM.at(iadd(iadd(j, 1), dd)))), lo=0)
+    nn = S.induction(f"[{tagname}] running maximum >= 0 and not NaN", lambda k: bimp(icmp("<=", k, NA), band(xcmp(">=", RM.at(k), ZERO), bnot(RM.at(k).nan) if not isinstance(RM.at(k).nan, bool) else not RM.at(k).nan)), lo=0)
+    return j, ub, nn
+
+
+def running_max_attained(S, spec, tagname):
+    """RM(n) is 0 (no larger p-value) or equals P_w for a position w < n: by induction with the explicit witness function
+    W(0) = -1, W(k+1) = k if P_k >= RM(k) else W(k)  (a definition by recursion: its instances are assumed where used)."""
+    c = ctx()
+    NA, RM, p_of = spec["NA"], spec["RM"], spec["p_of"]
+    W = z3.Function(c.fresh("argmax_" + tagname), z3.IntSort(), z3.IntSort())
+
+    def defn(k):
+        k = zi(k)
+        c.assume(W(z3.IntVal(0)) == -1, definitional=True)
+        c.assume(z3.Implies(k >= 0, W(k + 1) == z3.If(zb(xcmp(">=", p_of(k), RM.at(k))), k, W(k))), definitional=True)
+
+    def claim(k):
+        k = zi(k)
+        defn(k)
+        return bimp(icmp("<=", k, NA), bor(band(W(k) == -1, xsame(RM.at(k), ZERO)),
+                                          band(W(k) >= 0, W(k) < k, xsame(RM.at(k), p_of(W(k))))))
+
+    inst = S.induction(f"[{tagname}] the running maximum is 0 or attained at a witness position", claim, lo=0)
+    return W, inst
+
+
+@script(["C09", "C06"], "Assertion.set_p_values/post (unbounded number of assertions per contest; 2 contests)", optional=True)
+def set_p_values_unbounded(S, I, variant):
+    c = ctx()
+    contests, specs = {}, {}
+    for cid in ("c0", "c1"):
+        rl = S.real(f"risk_limit_{cid}", lo_strict=0, hi=Fraction(1, 2))
+        con = mk_contest(I, id=cid, risk_limit=rl, cards=10, candidates=["A", "B"], winner=["A"])
+        d, spec = assertion_collection(S, I, con, cid, rl)
+        con.attrs["assertions"] = d
+        contests[cid], specs[cid] = con, spec
+    by_dict = {id(contests[cid].attrs["assertions"]): cid for cid in contests}
+
+    def check(S_, I_, owner, d, j0, e0):
+        cid = by_dict[id(d)]
+        sp = specs[cid]
+        rec = e0["rec"]
+        mine = [t for t in sp["log"] if t[0].eq(zi(j0))]
+        once = len(mine) == 1 and mine[0][1] is sp["token"]("data", j0)
+        S_.holds(f"[{cid}] the test of assertion j is run once, on that assertion's data, holding the bound returned with the data",
+                 band(once, xsame(xr(mine[0][2]), XR(sp["U"](zi(j0))))) if once else False)
+        S_.holds(f"[{cid}] assertion j records exactly the p-value and history its test returned; the bound stays installed",
+                 band(xsame(xr(rec.attrs["p_value"]), sp["p_of"](j0)), rec.attrs["p_history"] is sp["token"]("history", j0),
+                      xsame(xr(rec.attrs["test"].attrs["u"]), XR(sp["U"](zi(j0))))))
+        S_.holds(f"[{cid}] proved = (p <= the contest's own risk limit) or proved before",
+                 biff(bterm(mkbool(I_.truth_term(rec.attrs["proved"]))), bor(xcmp("<=", sp["p_of"](j0), sp["rl"]), sp["OLDPROVED"](zi(j0)))))
+        key = d.key_at(j0)
+        ent = e0["entries"]
+        S_.holds(f"[{cid}] the contest's p_values / proved tables get exactly this assertion's entry",
+                 set(ent.get("p_values", {}).keys()) == {key} and set(ent.get("proved", {}).keys()) == {key}
+                 and band(xsame(xr(ent["p_values"][key]), sp["p_of"](j0)),
+                          biff(bterm(mkbool(I_.truth_term(ent["proved"][key]))), bterm(mkbool(I_.truth_term(rec.attrs["proved"]))))))
+
+    summ = RecordLoopSummary(S, lambda d, j: specs[by_dict[id(d)]]["RM"].at(j), check)
+    import ast as _ast
+    I.loop_matchers["Assertion.set_p_values"] = [
+        (lambda st: isinstance(st, _ast.For) and isinstance(st.iter, _ast.Call) and isinstance(st.iter.func, _ast.Attribute)
+         and st.iter.func.attr == "items" and isinstance(st.iter.func.value, _ast.Attribute) and st.iter.func.value.attr == "assertions", summ)]
+    fn = I.get(MOD, "Assertion.set_p_values")
+    mv = [sym_cvr(I, "mvr0", {"c0": ["A", "B"]})]
+    r, exc = guard(S, I, lambda: I.call(fn, [], {"contests": contests, "mvr_sample": mv, "cvr_sample": list(mv)}))
+    if exc:
+        return
+    if len(summ.done) != 2:
+        raise NotApplicable("the loop over a contest's assertions was not recognised")
+    for cid, con in contests.items():
+        sp = specs[cid]
+        S.eq(f"[{cid}] the contest's measured risk = running maximum of its assertions' p-values (0 if it has none)",
+             xr(I.norm_scalar(con.attrs["max_p"])), sp["RM"].at(iterm(sp["NA"])))
+        j, ub, nn = running_max_lemmas(S, sp, cid)
+        if ub(isub(isub(sp["NA"], j), 1)) and nn(iterm(sp["NA"])):
+            S.holds(f"[{cid}] every assertion's p-value is at most the contest's measured risk", xcmp("<=", sp["p_of"](j), xr(I.norm_scalar(con.attrs["max_p"]))))
+        else:
+            S.undecided(f"[{cid}] every assertion's p-value is at most the contest's measured risk")
+    m0, m1 = (xr(I.norm_scalar(contests[k].attrs["max_p"])) for k in ("c0", "c1"))
+    S.eq("returned value = the largest measured risk among the contests (0 if none)", xr(I.norm_scalar(r)), xmaximum(xmaximum(ZERO.asnp() if hasattr(ZERO, "asnp") else ZERO, m0), m1))
+
+
+@script(["C09"], "Audit.summarize_status/post (unbounded number of assertions per contest; 2 contests)", optional=True)
+def summarize_status_unbounded(S, I, variant):
+    c = ctx()
+    contests, specs = {}, {}
+    for cid in ("c0", "c1"):
+        rl = S.real(f"risk_limit_{cid}", lo_strict=0, hi=Fraction(1, 2))
+        con = mk_contest(I, id=cid, risk_limit=rl, cards=10, candidates=["A", "B"], winner=["A"])
+        d, spec = assertion_collection(S, I, con, cid, rl)
+        base_make = d._rec_of
+
+        def with_p(j, base_make=base_make, spec=spec):
+            a = base_make(j)
+            a.attrs["p_value"] = spec["p_of"](j)        # the p-values as set_p_values leaves them
+            return a
+
+        d.set_records(with_p)
+        con.attrs["assertions"] = d
+        contests[cid], specs[cid] = con, spec
+    by_dict = {id(contests[cid].attrs["assertions"]): cid for cid in contests}
+    summ = RecordLoopSummary(S, lambda d, j: specs[by_dict[id(d)]]["RM"].at(j), None)
+    import ast as _ast
+    I.loop_matchers["Audit.summarize_status"] = [
+        (lambda st: isinstance(st, _ast.For) and isinstance(st.iter, _ast.Call) and isinstance(st.iter.func, _ast.Attribute)
+         and st.iter.func.attr == "items" and isinstance(st.iter.func.value, _ast.Attribute) and st.iter.func.value.attr == "assertions", summ)]
+    audit = Obj(I.get(MOD, "Audit"), {})
+    fn = I.getattr(audit, "summarize_status")
+    r, exc = guard(S, I, lambda: I.call(fn, [contests], {}))
+    if exc:
+        return
+    if not summ.done:
+        raise NotApplicable("the loop over a contest's assertions was not recognised")
+    done = bterm(mkbool(I.truth_term(r)))
+    complete = {}
+    for cid in contests:
+        sp = specs[cid]
+        complete[cid] = xcmp("<=", sp["RM"].at(iterm(sp["NA"])), sp["rl"])
+    S.holds("reported complete exactly when every contest's measured risk (running maximum of its p-values) is at most its own limit",
+            biff(done, band(*complete.values())))
+    for cid in contests:
+        sp = specs[cid]
+        j, ub, nn = running_max_lemmas(S, sp, cid)
+        W, att = running_max_attained(S, sp, cid)
+        if ub(isub(isub(sp["NA"], j), 1)) and nn(iterm(sp["NA"])) and att(iterm(sp["NA"])):
+            S.holds(f"[{cid}] complete => every assertion of the contest has p <= the contest's limit", bimp(done, xcmp("<=", sp["p_of"](j), sp["rl"])))
+            w = W(zi(iterm(sp["NA"])))
+            S.holds(f"[{cid}] contest not within its limit => some assertion of it has p > the limit (witness position)",
+                    bimp(bnot(complete[cid]), band(w >= 0, w < zi(iterm(sp["NA"])), xcmp(">", sp["p_of"](w), sp["rl"]))))
+        else:
+            S.undecided(f"[{cid}] complete iff every assertion meets the limit")
+
+
+@script(["C09"], "Assertion.reset_p_values/post (unbounded number of assertions per contest; 2 contests)", optional=True)
+def reset_p_values_unbounded(S, I, variant):
+    c = ctx()
+    contests, specs = {}, {}
+    for cid in ("c0", "c1"):
+        rl = S.real(f"risk_limit_{cid}", lo_strict=0, hi=Fraction(1, 2))
+        con = mk_contest(I, id=cid, risk_limit=rl, cards=10, candidates=["A", "B"], winner=["A"])
+        d, spec = assertion_collection(S, I, con, cid, rl)
+        con.attrs["assertions"] = d
+        con.attrs["max_p"] = XR.finvar(c.fresh("old_max_p"))
+        contests[cid], specs[cid] = con, spec
+    by_dict = {id(contests[cid].attrs["assertions"]): cid for cid in contests}
+
+    def check(S_, I_, owner, d, j0, e0):
+        cid = by_dict[id(d)]
+        rec = e0["rec"]
+        key = d.key_at(j0)
+        ent = e0["entries"]
+        S_.holds(f"[{cid}] assertion j: p-value 1, empty history, unconfirmed",
+                 band(bterm(I_.equal(rec.attrs["p_value"], 1)), rec.attrs["p_history"] == [], I_.truth_term(rec.attrs["proved"]) is False))
+        S_.holds(f"[{cid}] the contest's tables get exactly this assertion's reset entry",
+                 set(ent.get("p_values", {}).keys()) == {key} and set(ent.get("proved", {}).keys()) == {key}
+                 and band(bterm(I_.equal(ent["p_values"][key], 1)), I_.truth_term(ent["proved"][key]) is False))
+
+    summ = RecordLoopSummary(S, None, check)
+    import ast as _ast
+    I.loop_matchers["Assertion.reset_p_values"] = [
+        (lambda st: isinstance(st, _ast.For) and isinstance(st.iter, _ast.Call) and isinstance(st.iter.func, _ast.Attribute)
+         and st.iter.func.attr == "items" and isinstance(st.iter.func.value, _ast.Attribute) and st.iter.func.value.attr == "assertions", summ)]
+    fn = I.get(MOD, "Assertion.reset_p_values")
+    r, exc = guard(S, I, lambda: I.call(fn, [], {"contests": contests}))
+    if exc:
+        return
+    if len(summ.done) != 2:
+        raise NotApplicable("the loop over a contest's assertions was not recognised")
+    for cid, con in contests.items():
+        S.holds(f"[{cid}] the contest's measured risk is reset to 1", bterm(I.equal(con.attrs["max_p"], 1)))
+        j = z3.Int(c.fresh("jr"))
+        with c.scope():
+            c.assume(z3.And(j >= 0, j < zi(iterm(specs[cid]["NA"]))))
+            a = con.attrs["assertions"].rec_at(j)
+            S.holds(f"[{cid}] after the call every assertion j reads: p-value 1, empty history, unconfirmed",
+                    band(bterm(I.equal(a.attrs["p_value"], 1)), a.attrs["p_history"] == [], I.truth_term(a.attrs["proved"]) is False))
